@@ -668,6 +668,34 @@ def discharge(ctx, m, inv_ok, cr, b, bi, kind, term, T):
                 if inv_ok:
                     return True, 'D1: capacity - written >= 0 by invariant I (written <= capacity), premises M2,M5,M8w,M9,M10 hold'
                 return False, '`capacity - written` can underflow: the premises of invariant I (written <= capacity) do not hold on this tree (see the M-rule violations)'
+        # (3a) a sum of sizes whose constant part alone (literal constants, lengths of string literals) already covers the
+        # constant that is subtracted: `"|#".len() + kv + n - 2`, `x - 0`
+        if c[0] == 'const' and unsigned_leafs_ok(a, size_leaf_for(ctx, b)):
+            def lower(t_):
+                t_ = norm(t_)
+                if t_[0] == 'load' and t_[2] == 'entry':
+                    t_ = t_[1]
+                if t_[0] == 'field' and str(t_[2]) == '0' and t_[1][0] == 'bin':
+                    t_ = t_[1]
+                if t_[0] == 'const':
+                    try:
+                        return max(0, int(str(t_[2])))
+                    except (TypeError, ValueError):
+                        return 0
+                if t_[0] == 'bin' and t_[1] in ('Add', 'AddWithOverflow'):
+                    return lower(t_[2]) + lower(t_[3])
+                if t_[0] == 'bin' and t_[1] in ('Mul', 'MulWithOverflow'):
+                    return lower(t_[2]) * lower(t_[3])
+                if t_[0] == 'call' and isinstance(t_[1], str) and t_[1] in ('core::str::len',) and len(t_[2]) == 1:
+                    s_ = peel(t_[2][0])
+                    if s_[0] == 'str':
+                        return len(s_[1].encode())
+                return 0
+            try:
+                if lower(a) >= int(str(c[2])):
+                    return True, 'D1: the constant part of the sum (%d) covers the constant subtracted (%s)' % (lower(a), c[2])
+            except (TypeError, ValueError):
+                pass
         # (3) unsigned sum containing L, minus small const, under a guard L >= 1
         if c[0] == 'const' and c[2] in ('1',):
             lens = [y for y in walk(a) if y[0] == 'call' and isinstance(y[1], str) and y[1].endswith('::len')]
@@ -699,7 +727,12 @@ def discharge(ctx, m, inv_ok, cr, b, bi, kind, term, T):
         a, c = inner[2], inner[3]
         ty = None
         # event counters: x + 1 on a u64/usize field
-        one = (c[0] == 'const' and c[2] == '1') or (a[0] == 'const' and a[2] == '1')
+        def _small(x_):
+            try:
+                return x_[0] == 'const' and 0 <= int(str(x_[2])) <= 16
+            except (TypeError, ValueError):
+                return False
+        one = _small(c) or _small(a)        # += 1 (or another tiny step): 2^60 events
         other = a if (c[0] == 'const') else c
         if one and msg.startswith('Overflow(Add)'):
             o = other[1] if other[0] == 'load' else other
